@@ -135,3 +135,17 @@ Definition pf_dyncfg (c : pfcfg) (l3 : Z) : option dyncfg :=
 (* a round-robin schedule that lets every worker run to its exit (used for non-vacuity and by the checks) *)
 Definition round_robin (workers : nat) (rounds : nat) : list nat :=
   flat_map (fun _ => seq 0 workers) (seq 0 rounds).
+
+(* ------------------------------------------------------------------ static path: who runs which chunk *)
+(* parallel_for_staticImpl (par_for_static.h:106-126): the chunk the calling thread runs itself and the remap of the
+   scheduler index around it.  ring = PerPoolPerThreadInfo::ringIndex(&pool) of the calling thread (-1 = not a worker of
+   this pool).  static_calls (ParForModel.v) lists chunk 0 .. n-1 and has no ring parameter: the ring only decides WHO runs
+   a chunk; static_chunk_indices is the list of chunk indices that are actually executed (scheduled ones, then the caller's) *)
+Definition static_caller_chunk (n : Z) (wait : bool) (ring : Z) : Z :=
+  if wait && (0 <=? ring) && (ring <? n) then ring else n - 1.
+Definition static_sched_chunk (callerChunk : Z) (wait : bool) (idx : Z) : Z :=
+  if wait && (callerChunk <=? idx) then idx + 1 else idx.
+Definition static_chunk_indices (n : Z) (wait : bool) (ring : Z) : list Z :=
+  let cc := static_caller_chunk n wait ring in
+  map (fun i => static_sched_chunk cc wait (Z.of_nat i)) (seq 0 (Z.to_nat (if wait then n - 1 else n)))
+  ++ (if wait then [cc] else []).
